@@ -126,6 +126,20 @@ def fallback_value(ns: dict, inner_name: str):
     raise KeyError(inner_name)
 
 
+def effective_bound(prog: dict) -> dict:
+    """The bound values a level works with: its own bindings, plus - for names it does not bind itself - the values
+    bound inside its nested programs, lifted to the wrapper's external input names (first nested program wins).
+    A name is ONE input of the composed graph: a binding carried by one nested graph serves every consumer of it."""
+    out = dict(prog.get("bind") or {})
+    for ns in prog["nodes"]:
+        if ns["k"] == "sub":
+            inner = effective_bound(ns["prog"])
+            for fp, ep in node_inputs(ns):
+                if fp in inner and ep not in out:
+                    out[ep] = inner[fp]
+    return out
+
+
 def producers(prog: dict) -> dict[str, list[dict]]:
     out: dict[str, list[dict]] = {}
     for ns in prog["nodes"]:
@@ -355,7 +369,7 @@ def _eval_level(prog, provided, *, path, fail, responses, top_levels, stop) -> R
     R = Ref()
     prod = producers(prog)
     ctrl = controlling(prog)
-    bound = prog.get("bind") or {}
+    bound = effective_bound(prog)
     by_name = {node_name(ns): ns for ns in prog["nodes"]}
     decided: dict[str, bool] = {}  # node name -> ran?
     gate_dec: dict[str, Any] = {}  # gate node name -> decision (only if ran)
